@@ -307,6 +307,14 @@ func TestC07Long(t *testing.T) {
 				cases = append(cases, C39Case{Sym: sym, Content: BStr(c), Checksum: true}, C39Case{Sym: sym, Content: BStr(c), Checksum: n == 30000, FullASCII: true})
 			}
 			cases = append(cases, C39Case{Sym: sym, Content: BStr(strings.Repeat("~z", n/2)), Checksum: true, FullASCII: true})
+			if n == 70000 { // one character more often than a 16-bit counter can count
+				cases = append(cases, C39Case{Sym: sym, Content: BStr(strings.Repeat("A", n)), Checksum: true}, C39Case{Sym: sym, Content: BStr(strings.Repeat("Z", 66000) + "-1"), Checksum: true})
+			}
+		}
+	}
+	if thorough() { // weighted sums beyond 2^31
+		for _, sym := range []int{39, 93} {
+			cases = append(cases, C39Case{Sym: sym, Content: BStr(strings.Repeat("%+/$Z-", 8000000/6)), Checksum: true})
 		}
 	}
 	parallelFor(len(cases), 16, func(i int) {
